@@ -14,6 +14,7 @@
 //	3_000_000 ...  S2 real Queue, d=0
 //	4_000_000 ...  S2 d=1: every timewheel.go+queue.go site x occurrence 1..4 x repetitions
 //	5_000_000 ...  S2 d=2: PRNG-sampled site pairs
+//	6_000_000 ...  S3 retry schedule with growing delays, in the running queue and across restarts (s3_test.go)
 package c12
 
 import (
@@ -377,8 +378,18 @@ func TestVerif(t *testing.T) {
 
 	ys := yieldStats{r: r, total: len(env.all)}
 
-	runS1(t, r, env, ys)
-	runS2(t, r, env, ys)
+	// C12_ONLY=s3 is a development aid (run one scenario group only; such a run
+	// ends inconclusive because the other groups' counters stay at zero).
+	only := os.Getenv("C12_ONLY")
+	if only == "" || only == "s1" {
+		runS1(t, r, env, ys)
+	}
+	if only == "" || only == "s2" {
+		runS2(t, r, env, ys)
+	}
+	if only == "" || only == "s3" {
+		runS3(t, r, ys)
+	}
 
 	verifkit.ResetYield()
 }
